@@ -35,7 +35,7 @@ def gen_cases(tier, seed):
     for i in pick:
         bt, b, bb = sizes[int(i)]
         for dim in (1, 2):
-            cases.append(dict(dim=dim, cartesian=True, bt=bt, b=b, bb=bb, keys=keys, cost=1.0))
+            cases.append(dict(dim=dim, cartesian=True, bt=bt, b=b, bb=bb, keys=keys, cost=1.0, x64=bool((bt + b + bb + dim) % 2)))
         if bt == b:
             for dim in (1, 2):
                 cases.append(dict(dim=dim, cartesian=False, bt=bt, b=b, bb=b if dim == 2 else bb,
